@@ -197,6 +197,8 @@ def _set_attr_from_title_line(
         setattr(species, attr, title_line[key_in_line])
     except IndexError:
         logger.warning(f"Failed to set the species {attr} from xyz file")
+    except (ValueError, TypeError) as e:
+        raise XYZfileWrongFormat(f"Title line value for {attr} not valid: {e}")
 
     return None
 
